@@ -23,6 +23,7 @@ from harness.common import Case, f
 from harness.samplers import Learner, index_rng, sampler_world
 from symx.core import Sym, is_sym, lift
 from symx.stubs import ScriptedGenerator, script_from, scripted_rng
+from symx.core import reraise_if_harness  # noqa: E402
 
 LEVEL = "other"
 FUNCTIONS = [
@@ -224,6 +225,7 @@ def case_untouched_nonfinite(kind, rows, dims, B):
         try:
             refused = run(_real_sampler(kind, B), _space(dims, lo=LO, hi=HI), pts, losses)
         except Exception as e:  # noqa: BLE001
+            reraise_if_harness(e)
             refused = f"{type(e).__name__}: {e}"[:80]
         bad = not (np.array_equal(pts, p0) and np.array_equal(losses, l0, equal_nan=True))
         return bad, f"{kind}: history losses {l0.tolist()} -> {losses.tolist()} (points changed={not np.array_equal(pts, p0)}; sampler {'refused: ' + str(refused) if refused else 'returned'})"
@@ -264,6 +266,7 @@ def replay_untouched(kind, rows, dims, B, v):
     except ValueError as e:
         return not (np.array_equal(pts, p0) and np.array_equal(losses, l0)), f"{kind}.sample raised ValueError: {e} (history intact: {np.array_equal(losses, l0)})"
     except Exception as e:  # noqa: BLE001
+        reraise_if_harness(e)
         return True, f"{kind}.sample raised {type(e).__name__}: {e}"
     bad = not (np.array_equal(pts, p0) and np.array_equal(losses, l0)) or out.shape != (B, dims)
     return bad, f"{kind}: history losses {l0.tolist()} -> {losses.tolist()}, points changed={not np.array_equal(pts, p0)}, output shape {out.shape}"
@@ -357,6 +360,7 @@ def case_surrogate(pool, B, rows, dims):
             try:
                 out = s.sample(space, hp, hl)
             except Exception as e:  # noqa: BLE001
+                reraise_if_harness(e)
                 return True, f"raised {type(e).__name__}: {e}"
             if rec.get("fit") is None or rec["fit"][0] is not hp or rec["fit"][1] is not hl:
                 msgs.append(f"call {call}: fit did not receive the history arrays of this call")
@@ -425,6 +429,7 @@ def case_bestbatch(dims, B, rows, prange):
                 s = BestBatchSampler(B, random_state=1, max_deduplication_passes=0, perturbation_range=prange)
                 out = s.sample(space, pts, losses)
         except Exception as e:  # noqa: BLE001
+            reraise_if_harness(e)
             return True, f"raised {type(e).__name__}: {e}"
         p = 1.0 / (n - 1)
         thr = sorted(losses)[B - 1]
